@@ -42,6 +42,11 @@ pub struct Case {
     /// run is skipped, but the result document still lists every planned pair exactly once
     #[serde(default)]
     pub failing: Option<(u16, u16, i32)>,
+    /// a third of the defined commands are mapped to an executable kept elsewhere
+    /// (`commands.definitions.<cmd>.path`), while a file with the command's stem that is *not*
+    /// the target's command lies in the command directory
+    #[serde(default)]
+    pub explicit_defs: bool,
 }
 
 pub fn strategy() -> impl Strategy<Value = Case> {
@@ -123,6 +128,7 @@ pub fn strategy() -> impl Strategy<Value = Case> {
                     undefined.push(e);
                 }
             }
+            let explicit_defs = raw.perm.get(1).copied().unwrap_or(0) % 2 == 0;
             Case {
                 config,
                 state,
@@ -130,6 +136,7 @@ pub fn strategy() -> impl Strategy<Value = Case> {
                 commands,
                 undefined,
                 failing,
+                explicit_defs,
             }
         })
 }
@@ -188,14 +195,15 @@ pub fn strategy_wide(max_width: usize) -> impl Strategy<Value = Case> {
                 commands,
                 undefined,
                 failing: None,
+                explicit_defs: false,
             }
         })
 }
 
 pub fn check(case: &Case, w: usize) -> CheckResult {
+    let mut cfg_owned = case.config.clone();
     let cfg = &case.config;
     let mut env = Env::new(w);
-    env.install_config(cfg);
     let mut beh = BTreeMap::new();
     for c in &case.commands {
         for t in &cfg.targets {
@@ -214,7 +222,44 @@ pub fn check(case: &Case, w: usize) -> CheckResult {
             }
         }
     }
-    bb::install_simple(&env, cfg, &beh);
+    // explicit definitions: the executable lives elsewhere, a decoy with the same stem lies in
+    // the command directory
+    let mut explicit: BTreeMap<(String, String), String> = BTreeMap::new();
+    if case.explicit_defs {
+        for (i, (c, t)) in beh.keys().enumerate() {
+            if (i + cfg.targets.len()) % 3 == 1 {
+                let p = format!("tools/defs/d{}/{}.sh", i, c);
+                if let Some(ts) = cfg_owned.targets.iter_mut().find(|x| x.path == *t) {
+                    ts.command_defs.insert(c.clone(), p.clone());
+                    explicit.insert((c.clone(), t.clone()), p);
+                }
+            }
+        }
+    }
+    env.install_config(&cfg_owned);
+    let decoy_root = env.path("decoy-started");
+    let decoy_marker = move |i: usize| std::path::PathBuf::from(format!("{}-{}", decoy_root.display(), i));
+    {
+        let mut plan = BTreeMap::new();
+        for (i, ((cmd, target), b)) in beh.iter().enumerate() {
+            let f = match explicit.get(&(cmd.clone(), target.clone())) {
+                Some(p) => {
+                    let decoy = env.path(&bb::simple_cmd_file(cfg, target, cmd));
+                    if let Some(d) = decoy.parent() {
+                        let _ = std::fs::create_dir_all(d);
+                    }
+                    let _ = std::fs::write(&decoy, format!("#!/bin/sh\ntouch '{}'\n", decoy_marker(i).display()));
+                    use std::os::unix::fs::PermissionsExt;
+                    let _ = std::fs::set_permissions(&decoy, std::fs::Permissions::from_mode(0o755));
+                    p.clone()
+                }
+                None => bb::simple_cmd_file(cfg, target, cmd),
+            };
+            env.install_command(&f, true);
+            plan.insert((f, target.clone()), b.clone());
+        }
+        env.set_plan(&plan);
+    }
     // every third defined command file is a symbolic link to a script kept elsewhere
     let mut linked = 0;
     for (i, (c, t)) in beh.keys().enumerate() {
@@ -329,6 +374,21 @@ pub fn check(case: &Case, w: usize) -> CheckResult {
     if got_cmds != case.commands.iter().collect::<Vec<_>>() {
         return viol("c05.commands", format!("result commands {:?} != requested {:?}", got_cmds, case.commands));
     }
+    // a same-stem file in the command directory is not the command of a target that maps the
+    // command to another executable
+    for (i, (c, t)) in beh.keys().enumerate() {
+        if decoy_marker(i).exists() {
+            return viol(
+                "c05.decoy.started",
+                format!(
+                    "({}, {}) maps the command to {:?}, but the same-stem file in its command directory was started",
+                    c,
+                    t,
+                    explicit.get(&(c.clone(), t.clone()))
+                ),
+            );
+        }
+    }
     let traces = env.traces();
     let mut by_key: BTreeMap<(String, String), Vec<&Trace>> = BTreeMap::new();
     for t in &traces {
@@ -399,7 +459,7 @@ pub fn check(case: &Case, w: usize) -> CheckResult {
     for t in &traces {
         let (cmd, target) = bb::trace_key(&env, t);
         if cfg.target(&target).is_some() {
-            let want = bb::simple_cmd_file(cfg, &target, &cmd);
+            let want = explicit.get(&(cmd.clone(), target.clone())).cloned().unwrap_or_else(|| bb::simple_cmd_file(cfg, &target, &cmd));
             if env.rel(&t.exe) != want {
                 return viol(
                     "c05.wrong.executable",
@@ -445,6 +505,7 @@ pub fn check(case: &Case, w: usize) -> CheckResult {
         .class_if(!case.undefined.is_empty(), "some-undefined")
         .class_if(cfg.targets.iter().any(|t| t.commands_path.is_some()), "custom-commands-dir")
         .class_if(linked > 0, "symlinked-command-files")
+        .class_if(!explicit.is_empty(), "explicit-definition+same-stem-decoy")
         .class_if(failed_mode, "one-executable-fails")
         .class_if(cfg.out_dir.is_some(), "out-dir-name-is-a-string-prefix-of-a-target")
         .class_if(selected.len() > 16, "selection>16")
